@@ -134,6 +134,18 @@ class RosenbrockFunctional(Functional):
                           2 * (x[0] - 1))
                 out[-1] = 2 * c * (x[-1] - x[-2] ** 2)
 
+                # The gradient is the representative of the partial
+                # derivatives with respect to the inner product of the space
+                out /= self._weights()
+
+            def _weights(self):
+                """Weights of the inner product of the domain."""
+                weighting = self.domain.weighting
+                weights = getattr(weighting, 'array', None)
+                if weights is None:
+                    weights = getattr(weighting, 'const', 1.0)
+                return weights
+
             def derivative(self, x):
                 """The derivative of the gradient.
 
@@ -152,6 +164,7 @@ class RosenbrockFunctional(Functional):
                     matrix[i, i + 1] = -4 * c * x[i]
                 matrix[-1, -1] = 2 * c
                 matrix[0, 0] = 2 + 12 * c * x[0] ** 2 - 4 * c * x[1]
+                matrix /= np.reshape(self._weights(), (-1, 1))
                 return MatrixOperator(matrix, self.domain, self.range)
 
         return RosenbrockGradient()
